@@ -101,6 +101,11 @@ impl Prop for DtOffset {
             let within = u.below(o.unsigned_abs())? as i64;
             i.ns = (if off > 0 { 86_399_999_999_999 - within } else { within }).clamp(0, 86_399_999_999_999);
         }
+        // local time of day exactly at / next to midnight and noon
+        if u.coin(1, 5)? {
+            let local_tod = *u.choose(&[0i64, 1, 86_399_999_999_999, 86_399_000_000_000, 43_200_000_000_000, 1_000_000_000])?;
+            i.ns = (local_tod - off as i64 * 1_000_000_000).rem_euclid(86_400_000_000_000);
+        }
         Ok(Case { i, off })
     }
     fn check(c: &Case, cx: &mut Cx) -> Verdict {
@@ -170,7 +175,14 @@ impl Prop for TimeOffset {
     const NAME: &'static str = "C10.time";
     const BYTES: usize = 48;
     fn gen(u: &mut Unstructured<'_>) -> arbitrary::Result<TimeCase> {
-        Ok(TimeCase { ns: gen::day_ns(u)? as u64, off: gen::offset(u)? })
+        let off = gen::offset(u)?;
+        let mut ns = gen::day_ns(u)?;
+        // local time of day exactly at / next to midnight (the wrap-around point) and noon
+        if u.coin(1, 4)? {
+            let local_tod = *u.choose(&[0i64, 1, 86_399_999_999_999, 86_399_000_000_000, 43_200_000_000_000, 1_000_000_000])?;
+            ns = (local_tod - off as i64 * 1_000_000_000).rem_euclid(86_400_000_000_000);
+        }
+        Ok(TimeCase { ns: ns as u64, off })
     }
     fn check(c: &TimeCase, cx: &mut Cx) -> Verdict {
         const DAY: i128 = 86_400_000_000_000;
@@ -184,6 +196,9 @@ impl Prop for TimeOffset {
         }
         if c.off % 3600 != 0 {
             cx.nt("offset_not_whole_hour");
+        }
+        if c.off != 0 && (local == 0 || local == DAY - 1) {
+            cx.nt("local_time_exactly_at_the_wrap");
         }
         let fields = |n: i128| {
             let s = (n / tl::NS) as u32;
@@ -345,7 +360,15 @@ pub fn run(env: &mut Env) {
     });
     env.run_enum::<TimeOffset, _>(n_off, move |k| {
         let off = (-86_399 + k as i32 * stride).min(86_399);
-        (0..64u64).map(move |j| TimeCase { ns: (j * 1_371_428_571_428 + (j % 4) * 999_999_999) % 86_400_000_000_000, off })
+        (0..64u64).map(move |j| {
+            let ns = match j {
+                0 => (-(off as i64) * 1_000_000_000).rem_euclid(86_400_000_000_000) as u64, // local 00:00:00
+                1 => (86_399_999_999_999 - off as i64 * 1_000_000_000).rem_euclid(86_400_000_000_000) as u64, // local 23:59:59.999999999
+                2 => (43_200_000_000_000 - off as i64 * 1_000_000_000).rem_euclid(86_400_000_000_000) as u64, // local noon
+                _ => (j * 1_371_428_571_428 + (j % 4) * 999_999_999) % 86_400_000_000_000,
+            };
+            TimeCase { ns, off }
+        })
     });
     if t {
         env.exhaustive_parts.push("C10: every offset -86399..=86399 x 64 instants (DateTime) and x 64 times (Time)".into());
